@@ -32,6 +32,10 @@ CHECKS = {
                 technique="symbolic execution of the compiled EvalRates with sentinel-initialised k: the store guard of every k[i] is extracted and SMT-compared with Tmin<=T<Tmax for all T; callers' zero-initialisation read from the compiled Fex/Jac",
                 text="For every window shape (none, lower, upper, both, zero, negative, equal bounds; KROME spellings .LE. > d-exponents NONE) in all six formats, z3 shows for all Tgas that k[i] is assigned iff the window predicate holds; adjacent piecewise windows have exactly one active member at every T including boundaries; Fex/Jac hand EvalRates a zero-initialised array.",
                 note="Temperature is a real-valued symbol (boundaries are ordinary values). Reactions overridden by a rate modifier are excluded by design (C13)."),
+    "C15": dict(engine=E2, cat="exploration", sec="6 C15",
+                technique="CrossHair symbolic execution (z3) of the real Network.find_duplicate_reaction / remove_reaction on stub reactions with symbolic integer identities (all paths), plus solver-enumerated selections of real Reaction objects for every comparison mode; counterexamples replayed natively",
+                text="For every list of <=4 reactions (as equality patterns of symbolic labels) the duplicate indices, duplicate list and first-member list equal the specification, and removing the reported reactions leaves one per class; for real reactions (permutations, electron spellings, differing windows/types) every selection of <=3 from a pool of 10 agrees with an independent equivalence per mode; __eq__/__hash__ consistency for all pairs.",
+                note="Bounded list lengths and pools; CrossHair's own soundness; string modes compare printed names by documentation."),
     "C19": dict(engine=E1, cat="model_checking", sec="6 C19",
                 technique="bounded model checking of the compiled Solve/HandleError IR with a nondeterministic integrator stub (symbolic flags and partial times, merged states) + one SMT-discharged inductive step per recovery level (loop back edge cut); scripted-mock native replay",
                 text="Every fault sequence over the recovery ladder is covered by (base) Solve up to HandleError establishes the invariant, (step) from any invariant state one level either returns SUCCESS with exactly y0+dt, returns FAIL, or re-establishes the invariant, with every flag an arbitrary integer and every partial time an arbitrary real; plus end-to-end monolithic queries and concrete-flag/symbolic-time scripts through all five levels; odeint Observer and Solve are decided on their compiled IR.",
